@@ -267,7 +267,53 @@ def rule_pure(ctx):
         ctx.note(f'listed exception: {mt.fq} increments a class-level counter (temporary definition names only)')
 
 
+ARG_MUTATORS = {'append', 'extend', 'insert', 'pop', 'remove', 'clear', 'sort', 'reverse', 'update', 'setdefault', 'add', 'discard'}
+OUT_PARAMS = {('sc3.synth.ugen:SynthObject._arrange', 'out_stack'): 'the topological sort appends to the output stack it is given (by design)'}
+
+
+def rule_args(ctx):
+    ctx.rule('C20.own', 'the functions of a build do not modify the containers they are given as arguments (rates, prepended arguments, output '
+                        'lists): `p += [...]`, `p[i] = ...` or a mutating method on a parameter writes into an object of the caller')
+    n = 0
+    for modn in ('sc3.synth.synthdef', 'sc3.synth.ugen', 'sc3.synth.ugens.inout', 'sc3.base.play'):
+        m = ctx.repo.module(modn)
+        for q, f in sorted(m.functions.items()):
+            params = set(f.params) - {'self', 'cls', 'file', 'stream'}
+            if not params:
+                continue
+            n += 1
+            bad = []
+            rebound = set()
+            for x in walk_local_ordered(f.node):
+                if isinstance(x, ast.Assign):
+                    for t in x.targets:
+                        if isinstance(t, ast.Name) and t.id in params:
+                            rebound.add(t.id)       # from here on the name is a local object (conservatively: any later write is to the copy)
+                        if isinstance(t, ast.Subscript) and isinstance(t.value, ast.Name) and t.value.id in params - rebound:
+                            bad.append(norm(x))
+                elif isinstance(x, ast.AugAssign):
+                    t = x.target
+                    if isinstance(t, ast.Name) and t.id in params - rebound and any(
+                            isinstance(y, (ast.List, ast.ListComp)) or (isinstance(y, ast.Call) and norm(y.func) in ('list', 'utl.as_list'))
+                            for y in ast.walk(x.value)):
+                        bad.append(norm(x))
+                    if isinstance(t, ast.Subscript) and isinstance(t.value, ast.Name) and t.value.id in params - rebound:
+                        bad.append(norm(x))
+                elif isinstance(x, ast.Expr) and isinstance(x.value, ast.Call):
+                    c = x.value
+                    if isinstance(c.func, ast.Attribute) and isinstance(c.func.value, ast.Name) and c.func.value.id in params - rebound \
+                            and c.func.attr in ARG_MUTATORS and (f.fq, c.func.value.id) not in OUT_PARAMS:
+                        bad.append(norm(c))
+            ctx.ob('C20.own', f'{f.fq}:arguments-untouched', not bad,
+                   f'{q} modifies its argument in place: {bad}; the change is visible to the caller after the build', f.node, m)
+    ctx.require(n >= 100, 'C20.own', f'only {n} functions with parameters analysed')
+
+
 def run(ctx):
+    rule_args(ctx)
+    from . import c03
+    ctx.rule('C20.own', 'helpers that run during a build do not write into containers handed in by the caller (a unit of one build would outlive it)')
+    c03.argument_untouched(ctx, 'C20.own')
     rule_ctx(ctx)
     rule_own(ctx)
     rule_order(ctx)
@@ -276,6 +322,11 @@ def run(ctx):
 
 
 MUTANTS = [
+    dict(rule='C20.own', name='rates list of the caller padded in place (fix reverted)', file='sc3/synth/synthdef.py',
+         old="        rates = list(rates) + [0] * (len(names) - len(rates))", new="        rates += [0] * (len(names) - len(rates))"),
+    dict(rule='C20.own', name='zero replacement writes into the given list (fix reverted)', file='sc3/synth/ugen.py',
+         old="        res = []\n        for item in lst:\n            if isinstance(item, (int, float)) and item == 0.0:\n                res.append(silence)\n            elif isinstance(item, list):\n                res.append(cls._replace_zeroes_with_silence(item))\n            else:\n                res.append(item)\n        return res\n",
+         new="        for i, item in enumerate(lst):\n            if isinstance(item, (int, float)) and item == 0.0:\n                lst[i] = silence\n            elif isinstance(item, list):\n                lst[i] = cls._replace_zeroes_with_silence(item)\n        return lst\n"),
     dict(rule='C20.ctx', name='NRT replaces the build lock by a no-op context (seed C20-d)', file='sc3/base/main.py',
          old="        cls._clock_scheduler = clk.ClockScheduler()", new="        cls._clock_scheduler = clk.ClockScheduler()\n        cls._def_build_lock = contextlib.nullcontext()"),
     dict(rule='C20.own', name='(fix reverted) as_bytes hands out a writable view of its cache', file='sc3/synth/synthdef.py',
